@@ -265,4 +265,94 @@ theorem applicable_replicate (cs : List Cls) (cpl : Cls → List Cls) (tC : Cls)
   | nil => simp [Applicable]
   | cons c cs ih => simp [List.replicate, Applicable, hT c, ih]
 
+/-! ## vocabulary of the property statements and small facts about it -/
+
+/-- `a` comes before `b` in the class precedence list `p` -/
+def Precedes (p : List Cls) (a b : Cls) : Prop := List.Sublist [a, b] p
+
+/-- `k1` is more specific than `k2` for arguments with precedence lists `precs`: at the first
+    argument (left to right) where they differ, the class of `k1` comes first in that argument's
+    precedence list -/
+def MoreSpecific : List (List Cls) → Key → Key → Prop
+  | p :: ps, a :: k1, b :: k2 => Precedes p a b ∨ (a = b ∧ MoreSpecific ps k1 k2)
+  | _, _, _ => False
+
+theorem moreSpecific_irrefl (precs : List (List Cls)) (hnd : ∀ p ∈ precs, p.Nodup) (k : Key) :
+    ¬ MoreSpecific precs k k := by
+  induction precs generalizing k with
+  | nil => cases k <;> simp [MoreSpecific]
+  | cons p ps ih =>
+    cases k with
+    | nil => simp [MoreSpecific]
+    | cons a k =>
+      simp only [MoreSpecific, true_and]
+      rintro (h | h)
+      · have h2 : [a, a].Nodup := List.Nodup.sublist h (hnd p (by simp))
+        simp at h2
+      · exact ih (fun q hq => hnd q (by simp [hq])) k h
+
+/-- the ids of the bodies that were started, in order -/
+def entered : List Ev → List Nat
+  | [] => []
+  | .run i :: r => i :: entered r
+  | .enter i _ :: r => i :: entered r
+  | .leave _ :: r => entered r
+
+theorem entered_append (a b : List Ev) : entered (a ++ b) = entered a ++ entered b := by
+  induction a with
+  | nil => rfl
+  | cons e r ih => cases e <;> simp [entered, ih]
+
+theorem entered_runs (bs : List Body) : entered (bs.map (fun b => Ev.run b.id)) = bs.map (·.id) := by
+  induction bs with
+  | nil => rfl
+  | cons b r ih => simp [entered, ih]
+
+theorem entered_runs_rev (bs : List Body) :
+    entered (bs.map (fun b => Ev.run b.id)).reverse = (bs.map (·.id)).reverse := by
+  rw [← List.map_reverse, entered_runs, List.map_reverse]
+
+theorem eff_empty_iff (eff : List Combo) (h : ∀ c ∈ eff, c.isEmpty = false) :
+    eff.isEmpty = ((eff.filterMap (fun c => c.wrap)).isEmpty && (eff.filterMap (fun c => c.before)).isEmpty
+      && (eff.filterMap (fun c => c.primary)).isEmpty && (eff.filterMap (fun c => c.after)).isEmpty) := by
+  cases eff with
+  | nil => rfl
+  | cons c rest =>
+    have hc := h c (by simp)
+    cases hw : c.wrap <;> cases hb : c.before <;> cases hp : c.primary <;> cases ha : c.after <;>
+      simp_all [Combo.isEmpty]
+
+theorem filterMap_head_of_const {α β : Type} (f : α → Option β) (b : β) (l : List α)
+    (hall : ∀ x ∈ l, f x = some b ∨ f x = none) (hex : ∃ x ∈ l, f x = some b) :
+    (l.filterMap f).head? = some b := by
+  induction l with
+  | nil => simp at hex
+  | cons x r ih =>
+    rcases hall x (by simp) with hx | hx
+    · simp [hx]
+    · simp only [List.filterMap_cons, hx]
+      apply ih (fun y hy => hall y (by simp [hy]))
+      obtain ⟨y, hy, hfy⟩ := hex
+      simp at hy
+      rcases hy with rfl | hy
+      · rw [hx] at hfy; cases hfy
+      · exact ⟨y, hy, hfy⟩
+
+theorem run_cons (E : Env) (a : Aux) (op : Op) (ops : List Op) :
+    run E a (op :: ops) = run E (step E a op).1 ops := by
+  simp [run, runOps]
+
+theorem tableOf_cons (op : Op) (ops : List Op) (t : Table) :
+    tableOf (op :: ops) t = tableOf ops (tableOf [op] t) := by
+  cases op <;> rfl
+
+theorem tableOf_append (ops1 ops2 : List Op) (t : Table) :
+    tableOf (ops1 ++ ops2) t = tableOf ops2 (tableOf ops1 t) := by
+  induction ops1 generalizing t with
+  | nil => rfl
+  | cons op ops ih => rw [List.cons_append, tableOf_cons, ih, ← tableOf_cons]
+
+theorem absT_init : absT Aux.init.methods = Table.empty := by
+  funext k q; rfl
+
 end SlipVerif.Dispatch
